@@ -177,6 +177,9 @@ class Position(object):
         return self.board[y * self.size + x]
 
     def move(self, m):
+        if not self.in_bounds(m.x, m.y):
+            raise IllegalMove("move off the board")
+
         delta = {
             "ply": self.ply + 1,
         }
@@ -222,6 +225,9 @@ class Position(object):
     def _move_slide(self, m, delta):
         if self.ply < 2:
             raise IllegalMove("Illegal opening")
+
+        if not m.slides or any(drop < 1 for drop in m.slides):
+            raise IllegalMove("malformed slide")
 
         stack = self[m.x, m.y]
         ndrop = sum(m.slides)
